@@ -294,7 +294,7 @@ def base_cfgs(tier):
         "ra1": dict(sc=False, retry=2, readers="R1", maxpub=3, maxcrash=1, maxinc=2, maxcalls=2, files="SFra"),
         "ra2": dict(sc=False, retry=2, readers="R2", maxpub=3, maxcrash=0, maxinc=1, maxcalls=1, files="SFone"),
         # replay covers (real RETRY)
-        "rp_warm": dict(sc=True, retry=1000000, readers="R1", maxpub=3, maxcrash=1, maxinc=2, maxcalls=2, files="SFra"),
+        "rp_warm": dict(sc=True, retry=1000000, readers="R1", maxpub=3, maxcrash=1, maxinc=2, maxcalls=2, files="SFrp"),
         "rp_cold": dict(sc=True, retry=1000000, readers="R1", maxpub=2, maxcrash=1, maxinc=2, maxcalls=2, files="SFall"),
         "rp_two": dict(sc=True, retry=1000000, readers="R2", maxpub=2, maxcrash=0, maxinc=1, maxcalls=1, files="SFone"),
         "rp_ra": dict(sc=False, retry=1000000, readers="R1", maxpub=2, maxcrash=0, maxinc=1, maxcalls=2, files="SFone"),
@@ -410,6 +410,9 @@ def c03(tier, seed):
         run.replay(b, False, f"SC cover {name}")
     res = seg_json(["wrap"] + ([] if tier == "thorough" else ["--only", "idle"]), timeout=600)
     run.take(res, "reader idle across n publications (n around the period 32767)", "wrap")
+    ew = seg_json(["extwipe"], timeout=300)
+    run.take(ew, "attached reader across an externally damaged segment and its re-initialisation", "extwipe")
+    rep.evaluations += len(ew["cases"])
     rep.notes.append(f"wrap: {[(c['mode'], c['publications_in_between'], c['result']) for c in res['cases']]}")
     rep.sample({"idle-reader wrap cases": [(c['mode'], c['publications_in_between'], c['result']) for c in res['cases']]})
     run.explore(seed, 30 if tier == "quick" else 400, 400 if tier == "quick" else 600, wprog, rprog, what="random schedules (W=7, 3 readers)")
@@ -437,6 +440,9 @@ def c04(tier, seed):
     for name in ["rp_cold", "rp_warm"]:
         b, r, _, _ = cover(rep, name, cf[name], wprog, rprog)
         run.replay(b, False, f"crash-point cover {name}")
+    ew = seg_json(["extwipe"], timeout=300)
+    run.take(ew, "attached reader across an externally damaged segment and its re-initialisation", "extwipe")
+    rep.evaluations += len(ew["cases"])
     run.explore(seed, 40 if q else 500, 400 if q else 600, wprog, rprog, crash_pct=8, what="crash/restart storms (W=7, 3 readers)")
     glob_samples(cf, rep)
     return run.finish()
